@@ -2025,6 +2025,9 @@ func (s *Netceptor) runProtocol(ctx context.Context, sess BackendSession, bi *Ba
 					}
 					remoteNodeID = ri.ForwardingNode
 					// Decide whether the remote node is acceptable
+					if remoteNodeID == "" {
+						return s.sendAndLogConnectionRejection(remoteNodeID, ci, "it did not provide a node ID")
+					}
 					if remoteNodeID == s.nodeID {
 						return s.sendAndLogConnectionRejection(remoteNodeID, ci, "it tried to connect using our own node ID")
 					}
